@@ -1,6 +1,9 @@
-//! C02 — not built yet.
+//! C02 — no holder commitment is both signed for broadcast and revoked.
+//! Same real-channel correspondence group as C01 (`c01.rs`, `c01_world.rs`) with an op mix that
+//! favours the closing signatures; the C02 monitor keeps the ghost sets Signed / Revoked from the
+//! signatures and secrets actually returned by the implementation.
 use crate::common::*;
 
 pub fn groups() -> Vec<Box<dyn Group>> {
-    vec![]
+    vec![Box::new(super::c01::EnfGroup { prop: "C02" })]
 }
